@@ -142,7 +142,11 @@ impl<E: Effect> Repl<E> {
         // Update REPL state
         self.bindings = bindings;
         self.module_cache = module_cache;
-        self.last_result_type = result_type;
+        // A line of type aliases only runs nothing: the value that flows into the next line is
+        // still the previous line's, and so is its type.
+        if !instructions.is_empty() {
+            self.last_result_type = result_type;
+        }
 
         // Only create function wrapper if we have instructions to execute
         let function_index = if !instructions.is_empty() {
